@@ -172,12 +172,16 @@ def run_c07(tier, seed, replay=None):
         nb = rnd.randint(2, 4)
         vals, branches = [], []
         for b in range(nb):
-            kind = rnd.choice(["never", "always_val", "val", "member", "spin", "loop_val", "nested", "upfrom"])
+            kind = rnd.choice(["never", "always_val", "val", "member", "spin", "loop_val", "nested", "upfrom", "bare_always", "bare_always"])
             v = 10 + b
             if kind == "never":
                 branches.append(["lib", "never"])
             elif kind == "spin":
                 branches.append(["call", "spin", "q"])
+            elif kind == "bare_always":
+                # an infinite producer that succeeds at once as a direct disjunct (always(), loop { true }, conde { true, .. })
+                branches.append(rnd.choice([["lib", "always"], ["loop", "true"], ["cond", "true", ["lib", "always"]],
+                                            ["cond", "true", ["loop", ["eq", "q", v]]]]))
             elif kind == "always_val":
                 branches.append(["conj", ["lib", "always"], ["eq", "q", v]]); vals.append(v)
             elif kind == "loop_val":
@@ -191,10 +195,14 @@ def run_c07(tier, seed, replay=None):
             else:
                 branches.append(["cond", ["lib", "never"], ["conj", ["lib", "always"], ["eq", "q", v]], ["eq", "q", v + 200]])
                 vals += [v, v + 200]
+        flood = any(b in (["lib", "always"], ["loop", "true"]) or (b[0] == "cond" and b[1] == "true") for b in branches)
+        if flood:
+            # an answer-flooding branch takes its share of every prefix: fewer siblings, a longer prefix
+            branches, vals = branches[:3], [v for v in vals if v % 100 < 13]
         body = [["cond"] + branches]
-        if rnd.random() < 0.3:
+        if rnd.random() < 0.3 and not flood:
             body = [["fresh", ["w"], ["cond", ["conj", ["lib", "always"], ["eq", "w", 1]], ["eq", "w", 2]]]] + body
-        maxans, budget = 40, 6000
+        maxans, budget = (160, 8000) if flood else (40, 6000)
         c = mk_case([spin, count], ["q"], body, maxans=maxans, budget=budget, expect_values=vals)
         c["maxans"], c["budget"] = maxans, budget
         cases.append(c)
@@ -255,6 +263,17 @@ def run_c08(tier, seed, replay=None):
         if head[0] == "loop" and op == "conda":
             continue
         cases.append(mk_case([], ["q"], [shape], maxans=10, budget=1500, ref_mode=("skip" if head[0] == "loop" else "bag")))
+    # the committed head is itself a committed-choice goal that delivers an already mature stream of several answers
+    for _ in range(n // 5):
+        vals = rnd.sample([1, 2, 3, 4, 5], rnd.randint(2, 4))
+        multi = rnd.choice([["lib", "member", "q", ["list"] + vals], ["cond"] + [["eq", "q", v] for v in vals]])
+        inner = rnd.choice([["conda", multi, ["eq", "q", 0]], ["conda", ["conj", "false", ["eq", "q", 0]], multi],
+                            ["conda", ["conj", multi]], ["conda", ["conj", multi, "true"]]])
+        outer = rnd.choice(["condu", "onceo", "conda"])
+        rest = rnd.choice([[], [["eq", "r", "q"]], [["neq", "q", vals[0]]]])
+        shape = rnd.choice([[outer, inner] + ([["eq", "q", 9]] if outer != "onceo" and rnd.random() < 0.3 else []),
+                            [outer, ["conj", inner] + rest]])
+        cases.append(mk_case([], ["q", "r"], [shape], maxans=12, budget=2500))
     for _ in range(n // 10):
         v = rnd.randint(1, 5)
         cases.append(mk_case([], ["q"], [[rnd.choice(["condu", "onceo"]), ["conj", ["lib", "always"], ["eq", "q", v]]]],
